@@ -4,6 +4,7 @@ CONSTANTS
   Emit = TRUE
   Slots = {"s1", "s2"}
   MaxSteps = 4
+  UseKinds = {"parse-window", "serialise", "scan"}
   Machine = "history"
 INVARIANTS NoAliasing CleanInPoolH
 PROPERTIES SnapshotStable
